@@ -358,11 +358,13 @@ func Run(cfg Config, bodies []func(t *Task)) *Result {
 	}
 	lowPrio := 0
 
+	// The timer is created before the driver hides its synchronisation from the race detector:
+	// time.NewTimer registers a runtime metric under a runtime lock on first use.
+	timer := time.NewTimer(time.Hour)
 	raceDisable()
 	live := n
 	last := -1
 	var now int64
-	timer := time.NewTimer(time.Hour)
 	recv := func(t *Task, wait time.Duration) bool {
 		if !timer.Stop() {
 			select {
